@@ -10,6 +10,7 @@ import SaModel.Trace.FromType
 import SaModel.Lemmas.C04Interp
 import SaModel.Lemmas.C04Scope
 import SaModel.Lemmas.C04FromType
+import SaModel.Lemmas.C04RootKind
 import SaModel.Lemmas.C01CompDefs
 /-
 C04, the tie of the Lean TYPE model to real derives (suite `roundtrip`, called from Driver/Suites/Roundtrip.lean).
@@ -33,13 +34,20 @@ functions on it and compares with what the REAL derived impls and the real crate
                `ZooTy::norm` of the harness to the model's `norm`: `rows_expected`);
   chain        the model's whole chain — `fromType` → `toMarrow` on `vs.map (ser t)` → `readAll (toTarget t)` = `ok
                (vs.map (dvalOf t ∘ norm t))` — is `ok` exactly when the crate round-trips the case (marrow front end);
-  hyps         when every hypothesis of `C04_end_to_end` holds of the case (decided here with the theorems' own
-               predicates) the chain must be ok (the theorem, evaluated) — hence the crate must round-trip;
-               `inScopeU` must agree with the schema-side exclusion `noneAtUnionRow` (`C04_inScopeU_row`, evaluated).
+  hyps         when every hypothesis of `C04_end_to_end_root` (Props/C04Root2.lean: the end-to-end theorem for EVERY root
+               kind — a struct with named fields, a tuple struct, a tuple, a newtype struct around one of these; hypotheses
+               `hroot`: `rootCols o t = some F`, `hne`: `F ≠ nil`, and those of `C04_end_to_end`) holds of the case (decided
+               here with the theorems' own predicates) the chain must be ok (the theorem, evaluated) — hence the crate must
+               round-trip; `inScopeU` must agree with the schema-side exclusion `noneAtUnionRow` (`C04_inScopeU_row_root`,
+               evaluated);
+  root         `from_type` must refuse a root that is not traced to a non-nullable struct (`recordRoot t = false`:
+               `C04_root_refused`, evaluated), the zoo's flag `badroot` must say the same as `recordRoot`, and for a root
+               with zero columns (`rootCols o t = some nil`: `C04_empty_root_loses_records`) the traced schema is `[]`.
 
-Types outside the grammar of the theorems are tagged `bridge:outside-fragE:<reason>` (borrowed-target, root-tuple-struct,
-root-newtype-struct, root-tuple, empty-root-struct, serialize-deserialize-asymmetric) and counted; (a), (b) and the reader-model comparison of (c) still run
-on them (with the shipped target for borrowed positions); chain differences are tags there, not disagreements.
+Every root kind is inside (tag `bridge:root:<kind>`); types outside the grammar of the theorems are tagged
+`bridge:outside-fragE:<reason>` (borrowed-target, serialize-deserialize-asymmetric, not-fragE) and counted; (a), (b) and the
+reader-model comparison of (c) still run on them (with the shipped target for borrowed positions); chain differences are tags
+there, not disagreements.
 -/
 namespace Driver.RoundtripBridge
 open Lean Driver SaModel SaModel.Roundtrip
@@ -51,23 +59,33 @@ structure Out where
 
 def outsideReason (desc : Json) (t : Ty) : Option String :=
   if hasTargetOverride desc then some "borrowed-target" else
+  if fragE t then none else some "not-fragE"
+
+/-- the root kind, for the coverage tags (`refused` = not traced to a non-nullable struct: `recordRoot t = false`) -/
+def rootKind (t : Ty) : String :=
+  if !recordRoot t then "refused" else
   match t with
-  | .struct _ .nil => some "empty-root-struct"
-  | .struct _ _ => if fragE t then none else some "not-fragE"
-  | .tupleStruct _ _ => some "root-tuple-struct"
-  | .newtype _ _ => some "root-newtype-struct"
-  | .tuple _ => some "root-tuple"
-  | _ => some "root-not-a-record"
+  | .struct _ .nil | .tupleStruct _ .nil | .tuple .nil => "empty"
+  | .struct _ _ => "record"
+  | .tupleStruct _ _ => "tuple-struct"
+  | .tuple _ => "tuple"
+  | .newtype _ t' =>
+    match rootCore t' with
+    | .struct _ _ => "newtype-of-record"
+    | .tupleStruct _ _ => "newtype-of-tuple-struct"
+    | _ => "newtype-of-tuple"
+  | _ => "refused"
 
 def firstIdx {α} (l : List α) (p : α → Bool) : Option Nat :=
   (l.zipIdx.find? fun (x, _) => p x).map (·.2)
 
-/-- the hypotheses of `Props.C04.C04_end_to_end` on (type, options, batch), by name -/
+/-- the hypotheses of `Props.C04.C04_end_to_end_root` on (type, options, batch), by name (`root`: the root is traced to a
+non-nullable struct, `hne`: with at least one column; for a root `struct n fs` they are those of `C04_end_to_end`) -/
 def failedHyps (ext : Build.Ext) (o : TraceOpts) (t : Ty) (vs : List Val) : List String :=
   let O := toOptions o
   (if fragE t then [] else ["fragE"]) ++
   (if sized t then [] else ["sized"]) ++
-  (match t with | .struct _ .nil => ["hne"] | .struct _ _ => [] | _ => ["root"]) ++
+  (match rootCols o t with | none => ["root"] | some .nil => ["hne"] | some _ => []) ++
   (if vs.all (wt t) then [] else ["wt"]) ++
   (if vs.all (inScopeO o t) then [] else ["inScopeO"]) ++
   (if Trace.Spec.walkable O "$" (toTraceTy t) then [] else ["walkable"]) ++
@@ -75,7 +93,7 @@ def failedHyps (ext : Build.Ext) (o : TraceOpts) (t : Ty) (vs : List Val) : List
   (if Trace.Spec.passes (toTraceTy t) ≤ O.from_type_budget then [] else ["budget"]) ++
   (if ((vs.map (ser t)).map (Build.vsize ext)).sum ≤ 2147483647 then [] else ["capacity"])
 
-def check (j : Json) (opts : TraceOpts) (rows : List SVal) (fields : List Field) (unordered : Bool) : Except String Out := do
+def check (j : Json) (opts : TraceOpts) (rows : List SVal) (fields : List Field) (unordered badroot : Bool) : Except String Out := do
   let some desc := getOpt j "ty_desc"
     | return { tags := ["bridge:absent"], bad := some ("absent", "the case carries no description of the zoo type") }
   let t ← rtyOfJson false desc
@@ -84,7 +102,11 @@ def check (j : Json) (opts : TraceOpts) (rows : List SVal) (fields : List Field)
   let outside := if t != tD then some "serialize-deserialize-asymmetric" else outsideReason desc t
   let inside := outside.isNone
   let borrowed := hasTargetOverride desc
-  let mut tags : List String := [match outside with | none => "bridge:inside-fragE" | some r => s!"bridge:outside-fragE:{r}"]
+  let mut tags : List String := [match outside with | none => "bridge:inside-fragE" | some r => s!"bridge:outside-fragE:{r}",
+    s!"bridge:root:{rootKind tD}"]
+  -- ---- the root kind: the flag the zoo declares is the model's `recordRoot`
+  if badroot != !recordRoot tD then
+    return { tags, bad := some ("root-kind", s!"the zoo declares the root {if badroot then "refused" else "supported"}, `recordRoot` of its description is {recordRoot tD}") }
   let ext := Driver.Suites.Build.extOfAux ((getObj j "aux").toOption.getD Json.null)
   let O := toOptions opts
   -- ---- (a) the recorded call streams are `ser t v` of well-typed values
@@ -107,7 +129,15 @@ def check (j : Json) (opts : TraceOpts) (rows : List SVal) (fields : List Field)
     if model.cls != "err" then
       return { tags, bad := some ("from_type-class", s!"`Trace.fromType (toTraceTy t)` is {model.cls} where `from_type::<T>` fails") }
   tags := tags ++ [s!"bridge:from_type-{ftCls}"]
-  let pre := Trace.Spec.walkable O "$" (toTraceTy t) && mappable opts t && decide (Trace.Spec.passes (toTraceTy t) ≤ O.from_type_budget)
+  -- `C04_root_refused`, evaluated: a root that is not traced to a non-nullable struct is refused
+  if !recordRoot tD && ftCls == "ok" then
+    return { tags, bad := some ("root-refused", "`from_type::<T>` accepts a root that is not traced to a non-nullable struct (`recordRoot t = false`)") }
+  -- `C04_root_accepted_iff`, evaluated: the documented preconditions AND a supported root kind
+  let pre := Trace.Spec.walkable O "$" (toTraceTy t) && mappable opts t && decide (Trace.Spec.passes (toTraceTy t) ≤ O.from_type_budget) &&
+    recordRoot t
+  -- `C04_empty_root_loses_records`, evaluated: a root with zero columns is accepted with the empty schema
+  if inside && rootCols opts t == some .nil && pre && (ftCls != "ok" || !fields.isEmpty) then
+    return { tags, bad := some ("empty-root", s!"a root with zero columns: from_type is {ftCls} with {fields.length} fields, the theorem says ok []") }
   if inside && (ftCls == "ok" || ftCls == "err") && pre != (ftCls == "ok") then
     return { tags, bad := some ("from_type-preconditions", s!"walkable ∧ mappable ∧ passes ≤ budget is {pre}, from_type is {ftCls}") }
   -- ---- the target
@@ -179,7 +209,7 @@ def check (j : Json) (opts : TraceOpts) (rows : List SVal) (fields : List Field)
     let failed := failedHyps ext opts t vs
     tags := tags ++ (if failed.isEmpty then ["bridge:hyps"] else failed.map fun h => s!"bridge:hyp-fails:{h}")
     if failed.isEmpty && !chainOk then
-      return { tags, bad := some ("theorem", "every hypothesis of C04_end_to_end holds of the case and the evaluated chain is not ok") }
+      return { tags, bad := some ("theorem", "every hypothesis of C04_end_to_end_root holds of the case and the evaluated chain is not ok") }
     if ftCls == "ok" && vs.all (wt t) then
       if let some i := firstIdx (vs.zip rows) fun (v, r) => inScopeU opts t v != !noneAtUnionRow fields r then
         return { tags, bad := some ("exclusion", s!"`inScopeU` and `noneAtUnionRow` disagree on row #{i}") }
